@@ -51,6 +51,8 @@ Apply(s, Reserved, o, id) ==
     [] o.op = "get"     -> Keep(s)
     [] o.op = "readd"   -> Keep(s)      \* the object already bound to o.name is assigned / added again under that name:
                                         \* nothing may change (whether the call is accepted or refused is left open)
+    [] o.op = "mulinst" -> Reject(s)    \* n * inst of an Instance the module already holds, assigned to o.name: refused, nothing changes
+    [] o.op = "extfromports" -> Keep(s) \* an ExternalModule built from Signal objects of this (and another) module: none of their business
     [] o.op = "alias"   -> Reject(s)    \* the object bound to o.mode is assigned to ANOTHER name o.name: an attribute has a single name; refused,
                                         \* nothing changes (else one object sits under two names and is exported twice)
     [] o.op = "del"     -> Reject(s)
